@@ -385,6 +385,11 @@ class Sym:
     def sym_len(self):
         return wrap(z3.Length(self.e))
 
+    def __iter__(self):
+        if self.kind != "str":
+            raise TypeError("'%s' object is not iterable" % {"int": "int", "real": "float", "bool": "bool"}.get(self.kind, self.kind))
+        raise Unsupported("iteration over a symbolic string")
+
     def __getitem__(self, idx):
         if self.kind != "str":
             raise Unsupported("subscript of symbolic %s" % self.kind)
